@@ -32,7 +32,8 @@ Set(f, x, v) == [y \in DOMAIN f \cup {x} |-> IF y = x THEN v ELSE f[y]]
 Admissible(k, v) == Adm(k) = Star \/ v \in Adm(k)
 
 Reset == Ev.t = "reset" /\ seq' = Ev.seq /\ err' = "" /\ adm' = <<>>
-Note == Ev.t = "step" /\ UNCHANGED <<seq, adm>> /\ Ok
+\* "survivors": white-box record of how many copies of a key the members that survived a crash hold (used to tell known finding D26 apart)
+Note == Ev.t \in {"step", "survivors"} /\ UNCHANGED <<seq, adm>> /\ Ok
 Op == /\ Ev.t = "op" /\ UNCHANGED seq
       /\ LET new == IF Ev.op = "del" THEN "nil" ELSE Ev.v IN
          IF Ev.ret = "ok" THEN adm' = Set(adm, Ev.k, {new}) /\ Ok
